@@ -65,6 +65,8 @@ func expected(name string, k *cuworld.Kernel, g cuworld.Geometry) []byte {
 			}
 		case "k8_store_then_endpgm":
 			out(uint32(l) + 9)
+		case "k19_barrier_release_while_neighbour_groups_issue_nops":
+			out(uint32(l) + 9)
 		case "k17_fully_masked_load_and_store_then_real_load":
 			out(in(gid) + 5)
 		case "k18_cold_load_then_warm_store_wait_vmcnt1":
@@ -331,7 +333,7 @@ func main() {
 		r.Tier = "thorough" // a replay file may name a scenario of either tier
 	}
 	ks := cuworld.LoadKernels(harness.Dir())
-	names := []string{"k1_lds_barrier", "k2_global_barrier", "k3_two_barriers", "k4_waitcnt_vm", "k5_waitcnt_lgkm", "k6_early_exit_before_barrier", "k7_late_exit_without_barrier", "k8_store_then_endpgm", "k9_exit_with_pending_store_while_others_wait", "k10_many_scalar_loads", "k11_many_stores", "k12_register_signature_survives_neighbour_exit", "k13_gather_sparse_then_dense_line", "k14_unawaited_scalar_load_into_wg_id_register", "k15_uncoalesced_64_lines_per_load", "k16_vcc_pair_then_vcc_halves", "k17_fully_masked_load_and_store_then_real_load", "k18_cold_load_then_warm_store_wait_vmcnt1"}
+	names := []string{"k1_lds_barrier", "k2_global_barrier", "k3_two_barriers", "k4_waitcnt_vm", "k5_waitcnt_lgkm", "k6_early_exit_before_barrier", "k7_late_exit_without_barrier", "k8_store_then_endpgm", "k9_exit_with_pending_store_while_others_wait", "k10_many_scalar_loads", "k11_many_stores", "k12_register_signature_survives_neighbour_exit", "k13_gather_sparse_then_dense_line", "k14_unawaited_scalar_load_into_wg_id_register", "k15_uncoalesced_64_lines_per_load", "k16_vcc_pair_then_vcc_halves", "k17_fully_masked_load_and_store_then_real_load", "k18_cold_load_then_warm_store_wait_vmcnt1", "k19_barrier_release_while_neighbour_groups_issue_nops"}
 
 	// --- the emulation CU as a second implementation: values and executed-PC sequences
 	type geo = cuworld.Geometry
